@@ -207,8 +207,18 @@ def crosscheck(world, contracts, cms, limit=None):
 def run_proof_tier(prop, contract_modules, source_modules, classify=None):
     """returns dict(violations, undecided, errors, obligations, functions, ...)"""
     t0 = time.time()
-    cms, contracts, uses = load_contracts(contract_modules)
-    world = driver.build_world(contract_modules, source_modules)
+    try:
+        cms, contracts, uses = load_contracts(contract_modules)
+        world = driver.build_world(contract_modules, source_modules)
+    except Exception as e:      # noqa
+        # a contract module reads names of the code under verification while it is imported (tables, patterns); on a
+        # tree where such a name is gone the contracts cannot even be stated: undecided, never a crash of the check
+        import traceback as _tb
+        why = _tb.format_exc().strip().splitlines()[-1]
+        return {'external_contracts_used': [], 'static': {}, 'violations': [], 'errors': [], 'diagnostics': [],
+                'undecided': [f"{prop}: the contracts cannot be loaded on this tree ({why}); proof tier skipped"],
+                'obligations': {}, 'functions': [], 'assumed': [], 'canaries': [], 'native_sampling': [],
+                'crosscheck': {'samples': 0, 'disagreements': 0}, 'dropped': [], 'timing': {}, 'cms': [], 'time_s': 0.0}
     by_q = {c.name: c for c in contracts}
     cm_of = {}
     for cm in cms:
@@ -356,7 +366,14 @@ def run_proof_tier(prop, contract_modules, source_modules, classify=None):
                 continue
             canary_log.append({'canary': cn['name'], 'expect_refuted': cn['expect'], 'result': st})
             if st != 'refuted':
-                errors.append(f"canary {cn['name']}: mutated body not refuted ({cn['expect']} is {st})")
+                # a canary guards against a VACUOUS success: it says something only where the contract it mutates
+                # is itself discharged on this tree (on a changed tree the function may have left the modelled subset)
+                target = cn.get('verify', cn['function'])
+                own = [o for oid, o in obs.items() if o['function'] == target]
+                if own and all(o['status'] == 'discharged' for o in own):
+                    errors.append(f"canary {cn['name']}: mutated body not refuted ({cn['expect']} is {st})")
+                else:
+                    canary_log[-1]['result'] = f"{st} (not applicable: the contract is not discharged on this tree)"
 
     timing['canaries_s'] = round(time.time() - t0 - sum(timing.values()), 2)
     n_cc, bad_cc = crosscheck(world, contracts, cms)
